@@ -97,11 +97,17 @@ def decimal(value: _decimal.Decimal) -> bytes:
     if not isinstance(value, _decimal.Decimal):
         raise TypeError('decimal.Decimal required, received {}'.format(
             type(value)))
-    tmp = str(value)
-    if '.' in tmp:
-        decimals = len(tmp.split('.')[-1])
-        value = value.normalize()
-        raw = int(value * (_decimal.Decimal(10)**decimals))
+    exponent = value.as_tuple().exponent
+    if not isinstance(exponent, int):
+        raise TypeError('finite decimal.Decimal required, received {}'.format(
+            value))
+    if exponent < 0:
+        decimals = -exponent
+        if decimals > 255:
+            raise TypeError('decimal.Decimal scale range: 0 to 255')
+        raw = int(value.scaleb(decimals))
+        if value != _decimal.Decimal(raw).scaleb(-decimals):
+            raise TypeError('decimal.Decimal precision exceeds the context')
         return struct.pack('>Bi', decimals, raw)
     return struct.pack('>Bi', 0, int(value))
 
